@@ -387,12 +387,36 @@ func ruleMergePreserve(c *Ctx) {
 			continue
 		}
 		calls(f, func(ci ssa.CallInstruction) {
-			if ci.Common().StaticCallee() != gate {
-				return
+			args := ci.Common().Args
+			if cal := ci.Common().StaticCallee(); cal != gate {
+				// a Tx method that forwards to the gate (put -> putWithTimestamp): what reaches the gate is the
+				// caller's argument where the wrapper passes its parameter on, the wrapper's own value otherwise
+				if cal == nil || !isTxMethod(cal) || len(cal.Blocks) == 0 {
+					return
+				}
+				var inner ssa.CallInstruction
+				calls(cal, func(wi ssa.CallInstruction) {
+					if wi.Common().StaticCallee() == gate && inner == nil {
+						inner = wi
+					}
+				})
+				if inner == nil {
+					return
+				}
+				var mapped []ssa.Value
+				for _, a := range inner.Common().Args {
+					if prm, ok := resolve1(stripConv(a)).(*ssa.Parameter); ok && prm.Parent() == cal {
+						if pi := paramIndex(cal, prm); pi >= 0 && pi < len(args) {
+							mapped = append(mapped, args[pi])
+							continue
+						}
+					}
+					mapped = append(mapped, a)
+				}
+				args = mapped
 			}
 			n++
 			c.touch(f)
-			args := ci.Common().Args
 			var entryRoot string
 			for i, p := range gate.Params {
 				if i == 0 || i >= len(args) {
